@@ -55,7 +55,8 @@ var reps = map[string][]string{
 	"micro-s": {"µs", "μs"}, "DEL": {"\x7f"}, "cmt": {"comment text", "# again"}, "u2name": {"пример.рф", "bücher.example"},
 	"bad_name!": {"bad_name!", "-x-.", "a..b"}, "name": {"name", "host", "a"}, "na.me": {"na.me", "sub.host.example", "a.b.c.d"},
 	"Name": {"Name", "HOST.Example"}, "user": {"user", "u%20ser"}, "pw": {"pw", "p:w", "p@w"}, "a b": {"a b", "a%20b"},
-	"h": {"h", "example.org", "localhost"},
+	"h":    {"h", "example.org", "localhost"},
+	"UL55": {rep("中", 55), rep("é", 100), rep("я", 60) + "A"}, "UL85": {rep("中", 85), rep("ß", 120)},
 }
 
 var suffixReps = map[string]string{
@@ -148,6 +149,15 @@ func concretise(v *vec, variant int) string {
 // ------------------------------------------------------------------ battery
 
 type state struct {
+	// Receivers reused across all inputs of one worker: unmarshalling into a
+	// value that already holds the result of an earlier call must be as total
+	// as unmarshalling into a fresh one.
+	rec  hostsfile.Record
+	hp   netutil.HostPort
+	pref netutil.Prefix
+	u    urlutil.URL
+	dur  timeutil.Duration
+
 	fn    atomic.Pointer[string]
 	input atomic.Pointer[string]
 	seq   atomic.Int64
@@ -228,6 +238,20 @@ func (fd *feeder) feedString(st *state, s string) {
 	c("netutil.HostPort.UnmarshalText", func() { hp := &netutil.HostPort{}; errStr(hp.UnmarshalText(b)) })
 	c("netutil.Prefix.UnmarshalText", func() { p := &netutil.Prefix{}; errStr(p.UnmarshalText(b)) })
 	c("hostsfile.Record.UnmarshalText", func() { r := &hostsfile.Record{}; errStr(r.UnmarshalText(b)) })
+	c("hostsfile.Record.UnmarshalText(reused receiver)", func() {
+		errStr(st.rec.UnmarshalText(b))
+		_, _ = st.rec.MarshalText()
+	})
+	c("UnmarshalText(reused receivers)", func() {
+		errStr(st.hp.UnmarshalText(b))
+		errStr(st.pref.UnmarshalText(b))
+		errStr(st.u.UnmarshalText(b))
+		errStr(st.u.UnmarshalJSON(b))
+		errStr(st.dur.UnmarshalText(b))
+		_ = st.hp.String()
+		_ = st.u.String()
+		_ = st.dur.String()
+	})
 	c("hostsfile.Parse", func() {
 		if len(s) < 60000 {
 			errStr(hostsfile.Parse(discardSet{}, strings.NewReader(s), nil))
